@@ -39,6 +39,9 @@ def universe(table, headers, abspaths, strs=None, seqrows=(), clean=False, seq_s
         if r["class"] == "bool":
             r.setdefault("negflag", "")
             r.setdefault("always", False)
+            r["also"] = {"derive_ord": ["derive_partialord", "any"], "derive_eq": ["derive_partialeq", "true"],
+                         "derive_partialord": ["derive_ord", "false"],
+                         "derive_partialeq": ["derive_eq", "false"]}.get(r["field"], [])
         if r["class"] == "enum":
             disp = [["bitfield_global", "bitfield"]] if r["field"] == "default_enum_style" else []
             r["display"] = disp
@@ -51,6 +54,8 @@ def universe(table, headers, abspaths, strs=None, seqrows=(), clean=False, seq_s
             r["keys"] = ["root", "root::x"] if r["shape"] == "two_values" else ["C", "stdcall", "C-unwind"]
         if r["class"] == "optstr":
             r.setdefault("kind", "string")
+            if r["field"] == "wasm_import_module_name":
+                r["kind"] = "wasm"
         rows.append(r)
     seq = list(seqrows)
     if clean:
@@ -59,7 +64,8 @@ def universe(table, headers, abspaths, strs=None, seqrows=(), clean=False, seq_s
             "dash": [s for s in strs if len(s) > 1 and s.startswith("-")],
             "eq": [s for s in strs if "=" in s], "colons": [s for s in strs if "::" in s],
             "tstrs": [x for x in (seq_strs or strs) if not clean or ("=" not in x and "::" not in x)],
-            "attrs": ATTRS, "headers": headers, "clang": ["-DX=1", "-DY"], "abspaths": abspaths,
+            "wasm": [[x, '#[link(wasm_import_module = "%s")]' % x] for x in (seq_strs or strs)],
+            "attrs": ATTRS, "headers": headers, "clang": ["-DX=1", "-DY"], "abspaths": abspaths, "depfiles": [os.path.join(os.path.dirname(abspaths[0]), "out.d")],
             "latest": 82, "seqrows": seq}
 
 
